@@ -1,5 +1,6 @@
 import Mochi.Model.Broker
 import Mochi.Lemmas.BrokerInv
+import Mochi.Lemmas.BrokerQuota
 /-!
 # C11 — Receive Maximum flow control holds in both directions without leaking quota
 
@@ -10,6 +11,11 @@ the receive quota is exhausted; an outbound QoS>0 message is written only while 
 Known findings F11a–c (recorded): `processPubrec` decrements the *receive* quota and
 `processPubrel`/`processPubcomp` increment both quotas (`C11_pubcomp_leaks_counterexample`); a
 resumed session gets full quotas and all stored messages resent at once.
+
+History level (second half of this file, `Mochi/Lemmas/BrokerQuota.lean`): the quotas as ACCOUNTING invariants
+(`C11_recv_quota_accounting_partial`, `C11_send_quota_accounting_partial`, `C11_no_send_beyond_quota_partial`,
+`C11_0x93_only_at_limit_partial`) on a decidable class of histories, with one `decide` counterexample per excluded
+class — these pin F11a–c, F09 and the quota leaks of the error / expiry paths down exactly.
 -/
 namespace Mochi.Broker
 open Mochi.Topics
@@ -62,5 +68,338 @@ theorem C11_QuotaOK_all_histories (caps : Caps) (ops : List Op) (h : OpsFresh (i
 example : OpsFresh (init {}) demoHistory := by decide
 example : ((getObj (run (init {}) demoHistory) 1).sendQuota, (getObj (run (init {}) demoHistory) 1).maxSend,
            (getObj (run (init {}) demoHistory) 1).inflight.length) = (0, 1, 1) := by decide
+
+end Mochi.Broker
+
+/-! ## Quotas as accounting invariants over histories
+
+`RecvAcc c : recvQuota + inboundOpen c = maxRecv` where `inboundOpen` counts the in-flight records of the inbound
+direction (type 5: PUBREC awaiting PUBREL; type 4: a PUBACK record whose write failed).
+`fc11OpsOK P (init caps) ops` (decidable, `Mochi/Lemmas/BrokerQuota.lean`): every op is fresh, the stored messages
+are PUBLISH packets with non-negative time stamps (`Fc11Store`, true in every reachable state), and `fc11OpOK`:
+* `recv` / `recvCut` / `inlinePublish`: the handler's own update of the ACTING client's records and quotas keeps the
+  accounting (`fc11PkOK`, one implication per handler branch; trivially true for SUBSCRIBE, UNSUBSCRIBE, PINGREQ,
+  DISCONNECT);
+* `connect` / `connectHold` / `release` of a parked CONNECT: the client id is not in the Clients map (no take-over,
+  no resumption);
+* `tick "inflight"`: the tick drops no record the accounting depends on.
+Everything else — deliveries to every other client, deferral, `nextImmediate`, wills, session clean-up, expiry of
+sessions, retained housekeeping, drops, parked handlers — is covered unconditionally, for all 12 op kinds. -/
+namespace Mochi.Broker
+open Mochi.Topics
+
+/-- **C11, receive side (all 12 op kinds, all histories of the class)**: every registered client has
+    `recvQuota + (open inbound records) = maxRecv` -/
+theorem C11_recv_quota_accounting_partial (caps : Caps) (ops : List Op)
+    (h : fc11OpsOK fc11RecvP (init caps) ops) :
+    ∀ id k, (id, k) ∈ (run (init caps) ops).clients →
+      (getObj (run (init caps) ops) k).recvQuota + inboundOpen (getObj (run (init caps) ops) k)
+        = (getObj (run (init caps) ops) k).maxRecv :=
+  fun id k hm => (fc11_run fc11RecvP_laws _ ops (WF_init caps) (fc11_init fc11RecvP_laws caps) h k ⟨id, hm⟩).1
+
+/-- the step form: one op of the class keeps the accounting of every registered client -/
+theorem C11_recv_quota_accounting_step (s : Server) (op : Op) (hwf : WF s) (hf : OpFresh s op) (hst : Fc11Store s)
+    (hg : fc11OpOK fc11RecvP s op) (h : Fc11Inv fc11RecvP s) : Fc11Inv fc11RecvP (step s op).1 :=
+  fc11_step fc11RecvP_laws s op hwf hf hst hg h
+
+/-! ### 0x93 only at the limit -/
+
+def fc11Not93 (r : HRes) : Prop := r.2.2 ≠ some 0x93
+
+theorem fc11_ite_code {p : Prop} [Decidable p] {a b : HRes}
+    (ha : p → fc11Not93 a) (hb : ¬ p → fc11Not93 b) : fc11Not93 (if p then a else b) := by
+  by_cases h : p
+  · rw [if_pos h]; exact ha h
+  · rw [if_neg h]; exact hb h
+
+theorem fc11_ackRes_code (s : Server) (i t id rc : Nat) : fc11Not93 (ackRes s i t id rc) := by
+  unfold fc11Not93
+  rcases ackRes_cases s i t id rc with h | h <;> rw [h] <;> intro e <;> cases e
+
+/-- `processPublish` returns 0x93 only on the exhausted-quota branch -/
+theorem fc11_processPublish_0x93 (s : Server) (i : Nat) (qos : Nat) (dup retain : Bool) (id : Nat) (topic payload : Str)
+    (msgExpiry : Nat) (alias : Option Nat)
+    (h : (processPublish s i qos dup retain id topic payload msgExpiry alias).2.2 = some 0x93) :
+    (getObj s i).recvQuota = 0 := by
+  false_or_by_contra
+  rename_i hrq
+  revert h
+  show fc11Not93 _
+  unfold processPublish
+  extract_lets +onlyGivenNames c
+  have early : ∀ code, code ≠ 0x93 → fc11Not93
+      (if (qos == 0) = true then ((s, [], none) : HRes)
+        else if (c.ver != 5) = true then
+          match disconnectClient s i code with
+          | (s, o) => (s, o, some code)
+        else ackRes s i (if (qos == 2) = true then 5 else 4) id code) := by
+    intro code hc
+    refine fc11_ite_code (fun _ => ?_) (fun _ => fc11_ite_code (fun _ => ?_) (fun _ => fc11_ackRes_code _ _ _ _ _))
+    · intro e; cases e
+    · intro e
+      apply hc
+      exact Option.some.inj e
+  refine fc11_ite_code (fun _ => early _ (by decide)) (fun _ => ?_)
+  refine fc11_ite_code (fun h0 => ?_) (fun _ => ?_)
+  · exact absurd (by simpa using h0) hrq
+  refine fc11_ite_code (fun _ => early _ (by decide)) (fun _ => ?_)
+  extract_lets +onlyGivenNames e pk pre
+  have hpre : ∀ r, pre = some r → fc11Not93 r := by
+    intro r h
+    simp only [pre] at h
+    split at h
+    · cases h
+    · split at h
+      · split at h
+        · cases h; exact fc11_ackRes_code _ _ _ _ _
+        · cases h
+      · cases h
+  generalize pre = pre' at hpre
+  split
+  · rename_i r
+    exact hpre r rfl
+  · split
+    rename_i s1 c1 heq
+    split
+    rename_i c2 pk2 heq2
+    extract_lets +onlyGivenNames s2
+    refine fc11_ite_code (fun _ => ?_) (fun _ => ?_)
+    · intro e; cases e
+    extract_lets +onlyGivenNames pk3 mode
+    refine fc11_ite_code (fun _ => ?_) (fun _ => fc11_ite_code (fun _ => fc11_ackRes_code _ _ _ _ _) (fun _ => ?_))
+    · intro e; cases e
+    extract_lets +onlyGivenNames pk4 s3
+    refine fc11_ite_code (fun _ => ?_) (fun _ => ?_)
+    · intro e; cases e
+    extract_lets +onlyGivenNames s4 ackT ackRC ack
+    split
+    rename_i c5 isNew heq5
+    extract_lets +onlyGivenNames s5 src s6
+    refine fc11_ite_code (fun _ => ?_) (fun _ => ?_)
+    · intro e; cases e
+    · intro e; cases e
+
+/-- **C11, 0x93 only at the limit**: on the class of `C11_recv_quota_accounting_partial`, if handling a PUBLISH for a
+    registered client ends with reason code 0x93 (the code `receivePacket` then sends in the DISCONNECT), the client's
+    receive quota is 0 and it really has `maxRecv` inbound exchanges open — the model counterpart of the harness's
+    inbound oracle. -/
+theorem C11_0x93_only_at_limit_partial (caps : Caps) (ops : List Op) (h : fc11OpsOK fc11RecvP (init caps) ops)
+    (cid : Str) (i : Nat) (hreg : (cid, i) ∈ (run (init caps) ops).clients)
+    (qos : Nat) (dup retain : Bool) (id : Nat) (topic payload : Str) (msgExpiry : Nat) (alias : Option Nat)
+    (h93 : (processPublish (run (init caps) ops) i qos dup retain id topic payload msgExpiry alias).2.2 = some 0x93) :
+    (getObj (run (init caps) ops) i).recvQuota = 0 ∧
+    inboundOpen (getObj (run (init caps) ops) i) = (getObj (run (init caps) ops) i).maxRecv := by
+  have h0 := fc11_processPublish_0x93 _ _ _ _ _ _ _ _ _ _ h93
+  have hacc := C11_recv_quota_accounting_partial caps ops h cid i hreg
+  rw [h0] at hacc
+  exact ⟨h0, by simpa using hacc⟩
+
+/-! ### the send side -/
+
+/-- **C11, send side (all 12 op kinds, all histories of the class)**: every registered client with a Receive Maximum
+    (`maxSend > 0`) has `sendQuota + (outbound records of type 3/6 that are not deferred) = maxSend` -/
+theorem C11_send_quota_accounting_partial (caps : Caps) (ops : List Op)
+    (h : fc11OpsOK fc11SendP (init caps) ops) :
+    ∀ id k, (id, k) ∈ (run (init caps) ops).clients → 0 < (getObj (run (init caps) ops) k).maxSend →
+      (getObj (run (init caps) ops) k).sendQuota + outboundOpen (getObj (run (init caps) ops) k)
+        = (getObj (run (init caps) ops) k).maxSend :=
+  fun id k hm => (fc11_run fc11SendP_laws _ ops (WF_init caps) (fc11_init fc11SendP_laws caps) h k ⟨id, hm⟩).1
+
+theorem C11_send_quota_accounting_step (s : Server) (op : Op) (hwf : WF s) (hf : OpFresh s op) (hst : Fc11Store s)
+    (hg : fc11OpOK fc11SendP s op) (h : Fc11Inv fc11SendP s) : Fc11Inv fc11SendP (step s op).1 :=
+  fc11_step fc11SendP_laws s op hwf hf hst hg h
+
+/-- **C11, no send beyond the quota**: on the send-side class (a) the unacknowledged, non-deferred outbound records of
+    a registered client never exceed its Receive Maximum, and no record is marked deferred while send quota is left;
+    (b) a delivery of a QoS > 0 message to a client whose send quota is 0 writes no packet at all (it is stored as
+    deferred) — so a new PUBLISH is written only if the send quota was positive (or `maxSend = 0`: no limit). -/
+theorem C11_no_send_beyond_quota_partial (caps : Caps) (ops : List Op)
+    (h : fc11OpsOK fc11SendP (init caps) ops) :
+    (∀ id k, (id, k) ∈ (run (init caps) ops).clients → 0 < (getObj (run (init caps) ops) k).maxSend →
+      outboundOpen (getObj (run (init caps) ops) k) ≤ (getObj (run (init caps) ops) k).maxSend ∧
+      (0 < (getObj (run (init caps) ops) k).sendQuota →
+        ∀ m ∈ (getObj (run (init caps) ops) k).inflight, 0 ≤ m.expiry)) ∧
+    (∀ i sub f pk, (getObj (run (init caps) ops) i).sendQuota = 0 → 0 < (getObj (run (init caps) ops) i).maxSend →
+      shapeQos (run (init caps) ops).caps sub pk.qos > 0 →
+      ∀ conn w, Out.wrote conn w ∉ (publishToClientCore (run (init caps) ops) i sub f pk).2) := by
+  refine ⟨fun id k hm hpos => ?_, fun i sub f pk h0 hm hq => fc11_core_defers _ i sub f pk h0 hm hq⟩
+  have hP := fc11_run fc11SendP_laws _ ops (WF_init caps) (fc11_init fc11SendP_laws caps) h k ⟨id, hm⟩
+  have := hP.1 hpos
+  exact ⟨by omega, hP.2 hpos⟩
+
+/-! ### non-vacuity and the excluded classes (each by `decide`)
+
+Client 1 = `s` (`[115]`, Receive Maximum 2, subscribed to `t` at QoS 2), client 2 = `p` (`[112]`). -/
+
+/-- in both classes: QoS 2 publish + duplicate (answered 0x91) + PUBREL, QoS 1 publishes, deferral at send quota 0,
+    a parked and released CONNECT, housekeeping ticks, an inline publish, a parked drop and its release, a drop -/
+def fc11DemoBoth : List Op :=
+  [.connect 1 { ver := 5, id := [115], rm := some 2 },
+   .recv 1 (.subscribe 1 0 [{ filter := [116], qos := 2 }]),
+   .connectHold 2 { ver := 5, id := [112] } 1,
+   .release 2,
+   .recv 2 (.publish 2 false false 1 [116] [97] 0 none),
+   .recv 2 (.publish 1 false false 2 [116] [98] 0 none),
+   .recv 2 (.publish 2 false false 1 [116] [97] 0 none),
+   .recv 2 (.pubrel 1 0),
+   .recv 2 (.publish 1 false false 3 [116] [99] 0 none),
+   .tick "clients" (NOW + 5),
+   .tick "inflight" (NOW + 5),
+   .inlinePublish [116] [99] false 1,
+   .dropHold 1, .release 1,
+   .drop 2]
+
+set_option maxRecDepth 100000 in
+example : fc11OpsOK fc11RecvP (init {}) fc11DemoBoth ∧ fc11OpsOK fc11SendP (init {}) fc11DemoBoth := by decide
+
+set_option maxRecDepth 100000 in
+/-- mid-history (after the ninth op): the publisher's exchange is closed again, the subscriber holds two sent and one
+    deferred message at send quota 0 of 2 -/
+example :
+    let s := run (init {}) (fc11DemoBoth.take 9)
+    ((getObj s 1).sendQuota, outboundOpen (getObj s 1), (getObj s 1).maxSend, (getObj s 1).inflight.length,
+     (getObj s 2).recvQuota, inboundOpen (getObj s 2)) = (0, 2, 2, 3, 1024, 0) := by decide
+
+set_option maxRecDepth 100000 in
+/-- after the fifth op the publisher has one inbound exchange open: 1023 + 1 = 1024 -/
+example :
+    let s := run (init {}) (fc11DemoBoth.take 5)
+    ((getObj s 2).recvQuota, inboundOpen (getObj s 2), (getObj s 2).maxRecv) = (1023, 1, 1024) := by decide
+
+/-- an outbound QoS 2 exchange acknowledged by PUBREC / PUBCOMP is in the SEND class … -/
+def fc11DemoOut : List Op :=
+  [.connect 1 { ver := 5, id := [115], rm := some 2 },
+   .recv 1 (.subscribe 1 0 [{ filter := [116], qos := 2 }]),
+   .connect 2 { ver := 5, id := [112] },
+   .recv 2 (.publish 1 false false 1 [116] [97] 0 none),
+   .recv 2 (.publish 2 false false 2 [116] [98] 0 none),
+   .recv 1 (.pubrec 2 0),
+   .recv 1 (.pubcomp 2 0),
+   .recv 1 (.puback 1 0)]
+
+set_option maxRecDepth 100000 in
+example : fc11OpsOK fc11SendP (init {}) fc11DemoOut := by decide
+
+set_option maxRecDepth 100000 in
+/-- … but not in the RECEIVE class (F11a: `processPubrec` decrements the RECEIVE quota of the subscriber, which has no
+    inbound exchange open: 1023 + 0 ≠ 1024; Go: server.go `processPubrec` → `cl.State.Inflight.DecreaseReceiveQuota()`);
+    PUBCOMP gives the unit back -/
+theorem C11_recv_counterexample_outbound_qos2 :
+    ¬ fc11OpsOK fc11RecvP (init {}) (fc11DemoOut.take 6) ∧
+    (let s := run (init {}) (fc11DemoOut.take 6)
+     ((getObj s 1).recvQuota, inboundOpen (getObj s 1), (getObj s 1).maxRecv) = (1023, 0, 1024)) ∧
+    (let s := run (init {}) (fc11DemoOut.take 7)
+     ((getObj s 1).recvQuota, inboundOpen (getObj s 1), (getObj s 1).maxRecv) = (1024, 0, 1024)) := by decide
+
+set_option maxRecDepth 100000 in
+/-- excluded, receive side: a session resumed with an open inbound exchange gets a full receive quota on top of the
+    inherited record (F11c; Go: `inheritClientSession` → `ResetReceiveQuota`): 1024 + 1 ≠ 1024 -/
+theorem C11_recv_counterexample_resumption :
+    let ops : List Op :=
+      [.connect 1 { ver := 5, id := [112], clean := false, sei := some 100 },
+       .recv 1 (.publish 2 false false 1 [116] [97] 0 none),
+       .drop 1,
+       .connect 2 { ver := 5, id := [112], clean := false, sei := some 100 }]
+    fc11OpsOK fc11RecvP (init {}) (ops.take 3) ∧ ¬ fc11OpsOK fc11RecvP (init {}) ops ∧
+    ([112], 2) ∈ (run (init {}) ops).clients ∧
+    ((getObj (run (init {}) ops) 2).recvQuota, inboundOpen (getObj (run (init {}) ops) 2)) = (1024, 1) := by decide
+
+set_option maxRecDepth 100000 in
+/-- excluded, receive side: a PUBREL with an error reason code deletes the record of the inbound exchange without
+    returning the quota unit (Go: `processPubrel`, the `ReasonCode >= ErrUnspecifiedError.Code` branch): 1023 + 0 -/
+theorem C11_recv_counterexample_pubrel_error :
+    let ops : List Op :=
+      [.connect 1 { ver := 5, id := [112] },
+       .recv 1 (.publish 2 false false 1 [116] [97] 0 none),
+       .recv 1 (.pubrel 1 0x92)]
+    fc11OpsOK fc11RecvP (init {}) (ops.take 2) ∧ ¬ fc11OpsOK fc11RecvP (init {}) ops ∧
+    ((getObj (run (init {}) ops) 1).recvQuota, inboundOpen (getObj (run (init {}) ops) 1)) = (1023, 0) := by decide
+
+set_option maxRecDepth 100000 in
+/-- excluded, receive side: in-flight housekeeping expires the record of an open inbound exchange without returning
+    the quota unit (Go: `ClearExpiredInflights`) -/
+theorem C11_recv_counterexample_inflight_expiry :
+    let ops : List Op :=
+      [.connect 1 { ver := 5, id := [112] },
+       .recv 1 (.publish 2 false false 1 [116] [97] 0 none),
+       .tick "inflight" (NOW + 100000)]
+    fc11OpsOK fc11RecvP (init {}) (ops.take 2) ∧ ¬ fc11OpsOK fc11RecvP (init {}) ops ∧
+    ((getObj (run (init {}) ops) 1).recvQuota, inboundOpen (getObj (run (init {}) ops) 1)) = (1023, 0) := by decide
+
+set_option maxRecDepth 100000 in
+/-- excluded, receive side: a PUBCOMP (any packet id — `processPubcomp` does not look the record up) raises the receive
+    quota while an inbound exchange is open (F11b): 1024 + 1 -/
+theorem C11_recv_counterexample_pubcomp :
+    let ops : List Op :=
+      [.connect 1 { ver := 5, id := [112] },
+       .recv 1 (.publish 2 false false 1 [116] [97] 0 none),
+       .recv 1 (.pubcomp 7 0)]
+    fc11OpsOK fc11RecvP (init {}) (ops.take 2) ∧ ¬ fc11OpsOK fc11RecvP (init {}) ops ∧
+    ((getObj (run (init {}) ops) 1).recvQuota, inboundOpen (getObj (run (init {}) ops) 1)) = (1024, 1) := by decide
+
+set_option maxRecDepth 100000 in
+/-- the LITERAL candidate (type 5 records only) fails where `RecvAcc` holds: a QoS 1 publish whose PUBACK cannot be
+    written (the peer is gone) leaves the type 4 record and the decremented quota (Go: `processPublish` returns the
+    `WritePacket` error before `IncreaseReceiveQuota`). The history is in the class; `inboundOpen` counts the record. -/
+theorem C11_recv_literal_candidate_counterexample :
+    let ops : List Op :=
+      [.connect 1 { ver := 5, id := [112], sei := some 100 },
+       .recvCut 1 (.publish 1 false false 1 [116] [97] 0 none)]
+    fc11OpsOK fc11RecvP (init {}) ops ∧ ([112], 1) ∈ (run (init {}) ops).clients ∧
+    ((getObj (run (init {}) ops) 1).recvQuota, inboundOpen5 (getObj (run (init {}) ops) 1),
+     inboundOpen (getObj (run (init {}) ops) 1), (getObj (run (init {}) ops) 1).maxRecv) = (1023, 0, 1, 1024) := by
+  decide
+
+set_option maxRecDepth 100000 in
+/-- excluded, send side (F11b): the PUBREL that completes an INBOUND QoS 2 exchange raises the SEND quota while the
+    client's outbound message is still unacknowledged: 2 + 1 ≠ 2 (Go: `processPubrel` → `IncreaseSendQuota`) -/
+theorem C11_send_counterexample_inbound_qos2 :
+    let ops : List Op :=
+      [.connect 1 { ver := 5, id := [115], rm := some 2 },
+       .recv 1 (.subscribe 1 0 [{ filter := [116], qos := 1 }]),
+       .recv 1 (.publish 2 false false 7 [116] [97] 0 none),
+       .recv 1 (.pubrel 7 0)]
+    fc11OpsOK fc11SendP (init {}) (ops.take 3) ∧ ¬ fc11OpsOK fc11SendP (init {}) ops ∧
+    fc11OpsOK fc11RecvP (init {}) ops ∧
+    ((getObj (run (init {}) ops) 1).sendQuota, outboundOpen (getObj (run (init {}) ops) 1),
+     (getObj (run (init {}) ops) 1).maxSend) = (2, 1, 2) := by decide
+
+set_option maxRecDepth 100000 in
+/-- excluded, send side (F09): an acknowledgement frees send quota while a message is deferred; `nextImmediate` writes
+    the deferred message, DELETES its record and takes the quota unit: 0 + 1 ≠ 2, and the sent message is untracked -/
+theorem C11_send_counterexample_deferred_release :
+    let ops : List Op := fc11DemoOut.take 5 ++
+      [.recv 2 (.publish 1 false false 3 [116] [99] 0 none), .recv 1 (.puback 1 0)]
+    fc11OpsOK fc11SendP (init {}) (ops.take 6) ∧ ¬ fc11OpsOK fc11SendP (init {}) ops ∧
+    ((getObj (run (init {}) ops) 1).sendQuota, outboundOpen (getObj (run (init {}) ops) 1),
+     (getObj (run (init {}) ops) 1).maxSend, (getObj (run (init {}) ops) 1).inflight.map (·.id)) = (0, 1, 2, [2]) := by
+  decide
+
+set_option maxRecDepth 100000 in
+/-- excluded, send side: a PUBREC with an error reason code deletes the outbound record without returning the quota
+    unit (Go: `processPubrec`, error branch): 1 + 0 ≠ 2 -/
+theorem C11_send_counterexample_pubrec_error :
+    let ops : List Op :=
+      [.connect 1 { ver := 5, id := [115], rm := some 2 },
+       .recv 1 (.subscribe 1 0 [{ filter := [116], qos := 2 }]),
+       .connect 2 { ver := 5, id := [112] },
+       .recv 2 (.publish 2 false false 2 [116] [98] 0 none),
+       .recv 1 (.pubrec 1 0x80)]
+    fc11OpsOK fc11SendP (init {}) (ops.take 4) ∧ ¬ fc11OpsOK fc11SendP (init {}) ops ∧
+    ((getObj (run (init {}) ops) 1).sendQuota, outboundOpen (getObj (run (init {}) ops) 1),
+     (getObj (run (init {}) ops) 1).maxSend) = (1, 0, 2) := by decide
+
+set_option maxRecDepth 100000 in
+/-- excluded, send side (F11c): a resumed session gets a full send quota and every stored message resent: 2 + 1 ≠ 2 -/
+theorem C11_send_counterexample_resumption :
+    let ops : List Op :=
+      [.connect 1 { ver := 5, id := [115], rm := some 2, clean := false, sei := some 100 },
+       .recv 1 (.subscribe 1 0 [{ filter := [116], qos := 1 }]),
+       .inlinePublish [116] [99] false 1,
+       .drop 1,
+       .connect 2 { ver := 5, id := [115], rm := some 2, clean := false, sei := some 100 }]
+    fc11OpsOK fc11SendP (init {}) (ops.take 4) ∧ ¬ fc11OpsOK fc11SendP (init {}) ops ∧
+    ((getObj (run (init {}) ops) 2).sendQuota, outboundOpen (getObj (run (init {}) ops) 2),
+     (getObj (run (init {}) ops) 2).maxSend) = (2, 1, 2) := by decide
 
 end Mochi.Broker
